@@ -29,6 +29,9 @@ type CConfig struct {
 	// NoHandlers: the client has neither OnNotify nor OnCallback, so requests
 	// from the peer have nowhere to go (and must still never complete a call).
 	NoHandlers bool `json:"no_handlers,omitempty"`
+	// OnlyHandler: "notify" - the client has OnNotify and no OnCallback;
+	// "callback" - the other way round. What it has no handler for is dropped.
+	OnlyHandler string `json:"only_handler,omitempty"`
 	// HookCalls: the OnCancel hook tells the peer (a Notify with a fresh context,
 	// the use its documentation names) and the OnStop hook asks IsStopped.
 	HookCalls bool `json:"hook_calls,omitempty"`
@@ -632,6 +635,12 @@ func RunClient(t *testing.T, sc CScenario) (h *CHistory) {
 		}
 		if sc.Cfg.NoHandlers {
 			opts.OnNotify, opts.OnCallback = nil, nil
+		}
+		switch sc.Cfg.OnlyHandler {
+		case "notify":
+			opts.OnCallback = nil
+		case "callback":
+			opts.OnNotify = nil
 		}
 		w.cli = jrpc2.NewClient(cc, opts)
 		w.settle()
